@@ -227,6 +227,9 @@ func parseSpecSource(path string, src []byte) (*SpecFile, error) {
 				case l == "nothing" || l == "":
 				case l == "heap":
 					cur.ModHeap = true
+				case strings.HasPrefix(l, "subtree(") && strings.HasSuffix(l, ")"):
+					// every field of every struct type reachable from the (pointer to a) struct: type-level frame
+					cur.Modifies = append(cur.Modifies, &ModLoc{Kind: "subtree", Text: l[8 : len(l)-1]})
 				case strings.HasPrefix(l, "elems(") && strings.HasSuffix(l, ")"):
 					cur.Modifies = append(cur.Modifies, &ModLoc{Kind: "elems", Text: l[6 : len(l)-1]})
 				case strings.HasPrefix(l, "ghost(") && strings.HasSuffix(l, ")"):
